@@ -666,6 +666,19 @@ def gen_xz_files(rng, count, lz2_pool, checks=(0, 1, 4)):
                       'desc': {'nblocks': nb, 'check': check, 'header_pads': [b.header_pad for b in blocks], 'mb_width': [b.mb_width for b in blocks]}})
     return files
 
+def blocks_with_header_size_byte(blk, check, targets=(0x3F, 0x40, 0x41, 0x7F, 0x80, 0xBF, 0xC0, 0xFF)):
+    """copies of a block whose header SIZE BYTE is exactly each target value (header of (t+1)*4 bytes, zero padded)"""
+    out = []
+    for t in targets:
+        for pad in range(0, 256):
+            try:
+                b2 = XzBlock(blk.payload, blk.content, with_packed=blk.with_packed, with_unpacked=blk.with_unpacked, header_pad=pad, mb_width=blk.mb_width, props=blk.props)
+                if xz_block_bytes(b2, check)[0][0] == t: out.append((t, b2)); break
+            except ValueError:
+                break
+    return out
+
+
 @prop('C03', '.xz files with 0-4 blocks x check {None, CRC32, CRC64} x optional size fields x header padding (header sizes up to 1024) x payload length mod 4 x multibyte widths 1-9, payloads from the reference LZMA2 serialiser, plus the files under /repo/tests/files; non-trivial = at least one block')
 def run_C03(ck):
     rng = Rng(ck.seed).fork('C03')
@@ -691,6 +704,12 @@ def run_C03(ck):
             blk = XzBlock(mp['bytes'], mp['out'], with_packed=wp_, with_unpacked=not wp_)
             cases.append({'line': 'xz_dec in=%s' % hx(xz_file([blk], ck_)), 'meta': {'max_packed_chunk': True, 'check': ck_}, 'oracle': exact_oracle(mp['out']), 'nontrivial': True})
             ck.count('block_with_packed_size_0xFFFF_chunk')
+    # header size bytes at and around 0x40 / 0x80 / 0xC0 / 0xFF exactly (a shift or cast on the byte itself loses the top bits)
+    f0 = next((f for f in files if f['blocks']), None)
+    if f0:
+        for t_, b2_ in blocks_with_header_size_byte(f0['blocks'][0], f0['check']):
+            cases.append({'line': 'xz_dec in=%s' % hx(xz_file([b2_] + f0['blocks'][1:], f0['check'])), 'meta': {'header_size_byte': t_}, 'oracle': exact_oracle(f0['out']), 'nontrivial': True})
+            ck.count('header_size_byte_exact')
     # a file with 130-300 blocks: the index's record count needs a two-byte multibyte integer, and whatever grows per block grows
     tiny_pool = [p for p in pool if len(p['bytes']) < 40] or pool[:3]
     for nb_ in ([130] if ck.tier == 'quick' else [127, 128, 129, 300]):
@@ -1734,6 +1753,10 @@ def run_C11(ck):
         trail = rng.bytes(rng.choice([0, 1, 2, 4, 12])) if rng.chance(3, 4) else bytes(rng.choice([1, 4, 8]))
         cases.append({'line': 'xz_dec in=%s rd=%s' % (hx(f['bytes'] + trail), RD()), 'meta': {'kind': 'xz', 'trail': len(trail)}, 'must_err': len(trail) > 0, 'expect_out': f['out']})
         ck.count('xz')
+        # trailing bytes that are themselves a complete .xz stream (the file again; with stream padding in between): still trailing bytes
+        for ti_, trail2 in enumerate((f['bytes'], bytes(4) + f['bytes'], f['bytes'][:12])):
+            cases.append({'line': 'xz_dec in=%s rd=%s' % (hx(f['bytes'] + trail2), ['all', '1', 'std:buf:7'][ti_]), 'meta': {'kind': 'xz', 'trail': len(trail2), 'trail_is': ['xz_stream', 'padding+xz_stream', 'xz_header'][ti_]}, 'must_err': True, 'expect_out': f['out']})
+            ck.count('xz_followed_by_xz')
     # the degenerate payload: a size-bounded member of size 0 still owns its five coder bytes
     for lc, lp, pb in [(3, 0, 2), (0, 0, 0)]:
         for trail in [b'', b'\x01\x02\x03\x04\x05\x06\x07']:
@@ -2456,6 +2479,10 @@ def run_C07(ck):
                 except ValueError: pass
             for v in (1 << 62, (1 << 63) - 1, 0):
                 add('xz_dec in=%s' % hx(xz_file([XzBlock(b0.payload, b0.content, with_packed=True, with_unpacked=True, packed_override=v, unpacked_override=v)] + f['blocks'][1:], f['check'])), 'xz_size_extremes')
+    f0 = next((f for f in xzs if f['blocks']), None)
+    if f0:
+        for t_, b2_ in blocks_with_header_size_byte(f0['blocks'][0], f0['check']):
+            add('xz_dec in=%s' % hx(xz_file([b2_] + f0['blocks'][1:], f0['check'])), 'xz_header_size_byte_exact')
     # regression corpus (earlier panics / accepted garbage): D1, D2
     empty = xz_file([], 0)
     for bs in (0xFFFFFFFF, 0x40000001, 0x80000001):
